@@ -114,7 +114,9 @@ func c14Fixed(p *ana.Prog, r *ana.Result, cp codecPair) int {
 	for _, pr := range dt.Problems {
 		r.Violate("C14.fixed", ana.FuncName(dec), "undecided:"+pr, p.Pos(dec.Pos()), "UNDECIDED decoder construct: "+pr)
 	}
-	key := func(row ana.CodecRow) string { return fmt.Sprintf("%d|%s|%d|%s", row.Off, row.Field, row.Shift, row.Cond) }
+	key := func(row ana.CodecRow) string {
+		return fmt.Sprintf("%d|%s|%d|%s", row.Off, row.Field, row.Shift, row.Cond)
+	}
 	em, dm := map[string]ana.CodecRow{}, map[string]ana.CodecRow{}
 	for _, row := range et.Rows {
 		if _, dup := em[key(row)]; dup {
